@@ -166,3 +166,65 @@ def ascending(bins, n):
 
 
 OPAQUE |= {"bin_cell_ok"}
+
+
+# ------------------------------------------------------------------ C09 focal / convolution
+def spec_hotspot(z):
+    # Getis-Ord confidence classes: |z| > 2.58 -> 99, > 1.96 -> 95, > 1.65 -> 90, else 0; sign of z; NaN -> 0
+    conf = 0
+    if abs(z) > 2.58:
+        conf = 99
+    elif abs(z) > 1.96:
+        conf = 95
+    elif abs(z) > 1.65:
+        conf = 90
+    if z > 0:
+        return conf
+    if z < 0:
+        return -conf
+    return 0
+
+
+def conv_row(K, D, a, r, b0, c0, n):
+    # sum over t < n of K[a, b0 + t] * D[r, c0 + t], accumulated left to right
+    if n <= 0:
+        return 0.0
+    return conv_row(K, D, a, r, b0, c0, n - 1) + K[a, b0 + n - 1] * D[r, c0 + n - 1]
+
+
+def conv_win(K, D, r0, c0, ncols, m):
+    # kernel-weighted sum over the first m full window rows: rows r0 .. r0+m-1 of D against rows 0 .. m-1 of K
+    if m <= 0:
+        return 0.0
+    return conv_win(K, D, r0, c0, ncols, m - 1) + conv_row(K, D, m - 1, r0 + m - 1, 0, c0, ncols)
+
+
+RECURSIVE = {"conv_row": "float", "conv_win": "float"}
+
+
+def excluded(v, excludes, ne):
+    return any(same(v, excludes[k]) for k in range(0, ne))
+
+
+def spec_focal_mean(data, y, x, rows, cols, excludes, ne):
+    # full 3x3 window clipped at the raster edge, NaN cells ignored; excluded values pass through untouched
+    if excluded(data[y, x], excludes, ne):
+        return data[y, x]
+    return nanmean(data[max(y - 1, 0):min(y + 2, rows), max(x - 1, 0):min(x + 2, cols)])
+
+
+OPAQUE |= {"spec_focal_mean"}
+
+
+def win_cell(data, kernel, y, x, a, b, rows, cols, krows, kcols):
+    # value the reducer sees at kernel position (a, b) for output cell (y, x): the input cell under a 1-entry of the
+    # kernel centred on (y, x), NaN for every other position (0-entries, positions outside the raster)
+    hr = krows // 2
+    hc = kcols // 2
+    if 0 <= y - hr + a and y - hr + a < rows and 0 <= x - hc + b and x - hc + b < cols and kernel[a, b] == 1:
+        return data[y - hr + a, x - hc + b]
+    return nan
+
+
+def focal_window(data, kernel, y, x, rows, cols, krows, kcols):
+    return array2(lambda a, b: win_cell(data, kernel, y, x, a, b, rows, cols, krows, kcols), krows, kcols)
